@@ -133,6 +133,8 @@ def make_exc(kind: str, label: str) -> BaseException:
         return RuntimeError('Event loop is closed')
     if kind == 'NoLoop':
         return RuntimeError('no running event loop')
+    if kind == 'StopIter':
+        return StopIteration(label)  # what `next(x for x in items if ...)` raises in a sync handler when nothing matches
     if kind == 'Unprintable':
         return UnprintableError(label)
     if kind == 'Unhashable':
@@ -156,6 +158,8 @@ def _payload(x):
     if isinstance(x, dict):
         if set(x) == {'$dt'}:
             return _dt.datetime.fromisoformat(x['$dt'])
+        if set(x) == {'$utf8'}:
+            return x['$utf8'].encode('utf-8')  # a bytes payload that IS valid UTF-8
         if set(x) == {'$bytes'}:
             return bytes.fromhex(x['$bytes'])  # e.g. 'fffe': not valid UTF-8, has no JSON encoding
         if set(x) == {'$obj'}:
@@ -549,6 +553,9 @@ class Run:
             # the event object was constructed `age` seconds before it is dispatched (creation order != dispatch order)
             import datetime as _dt
             kw['event_created_at'] = _dt.datetime.now(_dt.UTC) - _dt.timedelta(seconds=opts['age'])
+            if opts.get('naive'):
+                # a caller-supplied timestamp without UTC offset (datetime.now() / an ISO string without offset): legal for the field
+                kw['event_created_at'] = _dt.datetime.now() - _dt.timedelta(seconds=opts['age'])
         e = TYPES[t](**kw)
         self.events[tag] = e
         self.tag_by_id[e.event_id] = tag
@@ -719,7 +726,9 @@ class Run:
                     if self._dispatch(c, b, by, parent_tag) and mode == 'await':
                         await self._await_event(c, by)
             elif k == 'raise':
-                raise make_exc(op[1], str(by))
+                # (a StopIteration cannot leave an `async def` as itself - PEP 479 turns it into RuntimeError at the coroutine boundary,
+                # before the bus sees it - so async handlers raise something else in its place)
+                raise make_exc('ValueError' if op[1] == 'StopIter' else op[1], str(by))
             elif k == 'ret':
                 ret = op[1]
                 break
@@ -1031,6 +1040,15 @@ class Run:
                         e = mine[op[1]]
                         res['ev'] = self.tag_of(e)
                         self._dispatch(e, op[2], by, None)
+                elif k == 'on_fwd':
+                    # a forward attached while the program is running: bus_a.on(pattern, bus_b.dispatch) after events have been processed
+                    a_, d_, pat_ = self.sc['late_fwd'][op[1]]
+                    src, tgt = self.getbus(a_), self.getbus(d_)
+                    fn = tgt.dispatch
+                    src.on('*' if pat_ == '*' else (TYPES[pat_] if isinstance(pat_, int) else pat_), fn)
+                    self.hmap[S.get_handler_id(fn, src)] = f'B{a_}.lfwd{op[1]}>B{d_}'
+                    self.keep.append(fn)
+                    self.rec('on_fwd', by=by, k_=op[1], src=a_, dst=d_)
                 elif k == 'on':
                     # a handler registered while the program is running (events of its type may already be queued / processed)
                     h = self.sc['handlers'][op[1]]
@@ -1103,11 +1121,24 @@ class Run:
                 return boom
             raise AssertionError(ps)
 
+        class _FalsyFilter:
+            """A filter that is a callable OBJECT and happens to be falsy (an allow-list built as a set subclass that is still empty
+            when expect() is called, anything defining __len__ / __bool__): it is a filter all the same."""
+
+            def __init__(self, fn):
+                self.fn = fn
+
+            def __call__(self, e):
+                return self.fn(e)
+
+            def __len__(self):
+                return 0
+
         kw = {}
         for name, default in (('include', True), ('exclude', False), ('predicate', True)):
             p = pred(spec.get(name), default)
             if p is not None:
-                kw[name] = p
+                kw[name] = _FalsyFilter(p) if spec.get('falsy_filters') else p
         before = {k: len(v) for k, v in b.handlers.items()}
         sq = self.rec('exp_call', by=by, bus=bi, spec=spec, key=key, reg=before.get(key, 0))
         out, got = None, None
